@@ -584,6 +584,33 @@ def run_case(case):
     if mon.violations:
         return mon.result(summary=P)
 
+    env_rng = random.Random(case["stim_seed"] + ":usage")
+    if env_rng.random() < 0.15 and not isinstance(dut, Pair):
+        # a project's own subclass that extends what the library class elaborates to (one more statement in the module
+        # super().elaborate() returns): every elaboration must hand out a module that can still be extended
+        base_cls = type(dut)
+        extra_sig = Signal(name="vmon_ext")
+
+        def ext_elaborate(self, platform, _base=base_cls, _sig=extra_sig):
+            m = _base.elaborate(self, platform)
+            from amaranth import Module as _Module
+            if isinstance(m, _Module):
+                m.d.comb += _sig.eq(1)
+            return m
+        try:
+            dut.__class__ = type("Project" + base_cls.__name__, (base_cls,), {"elaborate": ext_elaborate})
+            mon.count("instances_of_an_extending_subclass")
+            P["extended_subclass"] = True
+        except TypeError:
+            pass
+    if env_rng.random() < 0.12:
+        # an elaboration that got no further than the component's own elaborate() (the user called it directly, or
+        # something else in the design failed afterwards); the instance is then elaborated normally
+        try:
+            dut.elaborate(None)
+            mon.count("interrupted_elaborations")
+        except (ValueError, TypeError):
+            pass
     top = Top({"dut": dut})
     ports = []
     for obj in [dut] + list(extra):
@@ -653,7 +680,7 @@ def run_case(case):
                                           f"{a[diff] if diff < len(a) else '<eof>'!r} vs {b[diff] if diff < len(b) else '<eof>'!r}",
                                    "detail": {"params": P}})
             break
-    if P.get("mid_elaborated_after") and texts:
+    if P.get("mid_elaborated_after") and texts and not P.get("extended_subclass"):
         # the same configuration built afresh, never elaborated before completion, is the same hardware
         fcase = copy.deepcopy(case)
         fcase["mid_elab_after"] = None
